@@ -296,7 +296,9 @@ func parseStrace(log, dir string) []string {
 		name := rest[:par]
 		args := rest[par+1 : eq]
 		ret := strings.TrimSpace(rest[eq+3:])
-		if strings.HasPrefix(ret, "-1") {
+		if strings.HasPrefix(ret, "-1") || strings.HasPrefix(ret, "?") {
+			// failed call, or a call interrupted by a signal (the Go runtime preempts with SIGURG) that
+			// the kernel restarts: strace logs the restarted call again
 			continue
 		}
 		i := strings.Index(args, "<"+dir+"/")
